@@ -34,7 +34,7 @@ REQUIRED = ["histories_checked", "events_checked", "deep_traversals", "low_limit
             "inplace_reparentings", "history_copies", "history_rerootings", "handle_variants",
             "falsy_callable_callbacks", "forest_traversals", "row_permuted_topologies",
             "near_recursion_limit_chains", "tap__traverse_dfs"]
-FLOOR = {"quick": 1200, "thorough": 20000}
+FLOOR = {"quick": 1200, "thorough": 100000}
 SHARDS = {"quick": 8, "thorough": 16}
 TECHNIQUE = ("runtime monitoring: recorded enter/leave callback histories with unique tokens "
              "checked offline against a structural-recursion trace specification; lowered "
@@ -457,7 +457,7 @@ def run(ctx):
 
 def _workload(ctx):
     rng = ctx.rng
-    n_trees = ctx.scale(260, 4000)
+    n_trees = ctx.scale(260, 20000)
     for k in range(n_trees):
         rc = G.random_recipe(rng, max_n=G.size_ladder(ctx, k, 10, 40, 150), extras=0)
         spec = G.spec_from_recipe(rc)
